@@ -171,6 +171,13 @@ type dent struct {
 // C13 oracle: cookie-paged enumeration with small budgets returns exactly the
 // one-shot listing, each entry once, and terminates.
 func (s *seqRun) dirScan(d []byte) {
+	// (the listings issued here are helper requests: their lock events must not be attributed to
+	// the next traced operation, which would be judged by that operation's rules)
+	defer func() {
+		if s.locks && !s.inline {
+			takeSeqEvents()
+		}
+	}()
 	list := func(plus bool, cookie uint64, b1, b2 uint32) (es []dent, eof bool, st nfstypes.Nfsstat3, ok bool) {
 		ok = s.guarded("dirscan", func() {
 			if plus {
